@@ -11,7 +11,7 @@ import (
 func init() {
 	register(&propInfo{
 		ID:          "C08",
-		Explanation: "Close-once typestate and path analysis of client channels: (R08.1) the caller's channel is closed only inside the buffering goroutine, every close is followed by return on all paths (no further select, send or close), and values are sent to it only from there; (R08.2) every invocation of a sink callback with ok=false is preceded, under the sink lock, by removing the sink from the table it was looked up in (so the close notification, connection loss and client close cannot each close it), and the intake channel is closed only on the ok=false branch of the sink; (R08.3) the sink closer visits every entry of the table, unconditionally, and runs on every loss path before redialling and on every loop exit; (R08.4) the buffering goroutine always selects on the subscription context, whose arm closes the caller's channel and returns, and the sink drops values once that context is done; (R08.5) the forwarder's parallel slices use one removal scheme (otherwise a handler's close closes another caller's channel); (R08.6) a channel-id response sets up its sink once: after delivering it the in-flight entry is removed on every path. (R08.9) the close-when-drained test looks at the buffer itself. (R08.10) no value is dropped by a test of its payload bytes. (R08.11) an element leaves the client-side buffer only when it was handed to the caller; (R08.12) the peer-activity channel is signalled only inside the pong/ping handlers.",
+		Explanation: "Close-once typestate and path analysis of client channels: (R08.1) the caller's channel is closed only inside the buffering goroutine, every close is followed by return on all paths (no further select, send or close), and values are sent to it only from there; (R08.2) every invocation of a sink callback with ok=false is preceded, under the sink lock, by removing the sink from the table it was looked up in (so the close notification, connection loss and client close cannot each close it), and the intake channel is closed only on the ok=false branch of the sink; (R08.3) the sink closer visits every entry of the table, unconditionally, and runs on every loss path before redialling and on every loop exit; (R08.4) the buffering goroutine always selects on the subscription context, whose arm closes the caller's channel and returns, and the sink drops values once that context is done; (R08.5) the forwarder's parallel slices use one removal scheme (otherwise a handler's close closes another caller's channel); (R08.6) a channel-id response sets up its sink once: after delivering it the in-flight entry is removed on every path. (R08.9) the close-when-drained test looks at the buffer itself. (R08.10) no value is dropped by a test of its payload bytes. (R08.11) an element leaves the client-side buffer only when it was handed to the caller; (R08.12) the peer-activity channel is signalled only inside the pong/ping handlers. (R08.13) channel ids are never derived from a length; (R08.14) every table of the connection object filled while it runs is emptied on the way to a redial.",
 		NotDecided:  "That termination happens eventually under a given schedule; prefix property of received values beyond ordering (C07) — values are not inspected.",
 		Assumptions: []string{"closing a reflect channel twice panics; a select on a closed intake yields ok=false"},
 		Run:         runC08,
@@ -241,6 +241,10 @@ func runC08(c *Ctx) {
 	c.closeWhenDrained("R08.9")
 	c.rule("R08.8", "every streamed value is decoded into memory allocated for that value")
 	c.freshStreamValue("R08.8")
+	c.ruleOpt("R08.13", "a stream is closed under its own id: channel ids are never derived from the size of a collection")
+	c.idsNotFromLength("R08.13")
+	c.rule("R08.14", "nothing keyed by a channel id outlives the connection the id belongs to: every table of the connection object that is filled while it runs is emptied (or made anew) on the way to a redial — ids start again at 1 on the new connection")
+	c.tablesEmptiedBeforeRedial("R08.14")
 	c.rule("R08.12", "a silently dead connection is detected (and the streams on it closed): the peer-activity channel is signalled only inside the pong/ping handlers")
 	c.activityOnlyFromPeer("R08.12")
 	c.rule("R08.11", "a value leaves the client-side buffer only by having been handed to the caller: the element removed is the one offered in the select, in the arm where that send was chosen")
@@ -284,10 +288,12 @@ func (c *Ctx) removedOnlyWhenDelivered(rule string) {
 	for _, x := range resets {
 		c.bad(rule, fmt.Sprintf("%s: buffer emptied", fname(x.Parent())), c.ipos(x), "the buffer is re-initialised inside the loop: buffered values are thrown away")
 	}
-	armOf := func(b *ssa.BasicBlock) (int64, bool) {
+	// what is known about the chosen index where block b runs: index -> true (equal) / false (different)
+	armOf := func(b *ssa.BasicBlock) map[int64]bool {
+		out := map[int64]bool{}
 		for _, cf := range expandConds(impliedConds(b)) {
 			bo, ok := cf.Cond.(*ssa.BinOp)
-			if !ok || bo.Op != token.EQL || !cf.True {
+			if !ok || (bo.Op != token.EQL && bo.Op != token.NEQ) {
 				continue
 			}
 			ex, ok := bo.X.(*ssa.Extract)
@@ -298,10 +304,28 @@ func (c *Ctx) removedOnlyWhenDelivered(rule string) {
 				continue
 			}
 			if k, ok := constInt(bo.Y); ok {
-				return k, true
+				out[k] = cf.True == (bo.Op == token.EQL)
 			}
 		}
-		return 0, false
+		return out
+	}
+	// two blocks can run for the same chosen index unless their facts contradict each other
+	compatible := func(x, y map[int64]bool) bool {
+		var xe, ye int64 = -99, -99
+		for k, eq := range x {
+			if eq {
+				xe = k
+			}
+			if v, ok := y[k]; ok && v != eq {
+				return false
+			}
+		}
+		for k, eq := range y {
+			if eq {
+				ye = k
+			}
+		}
+		return xe == -99 || ye == -99 || xe == ye
 	}
 	if len(removes) == 0 {
 		c.und(rule, fmt.Sprintf("%s: removal from the buffer", fname(buf)), c.P.pos(buf.Pos()), "no (*list.List).Remove found")
@@ -338,18 +362,32 @@ func (c *Ctx) removedOnlyWhenDelivered(rule string) {
 			continue
 		}
 		// (b) in a select arm without pushes
-		k, ok := armOf(rm.Block())
-		if !ok {
+		arm := armOf(rm.Block())
+		if len(arm) == 0 {
 			c.bad(rule, construct, c.ipos(rm), "the removal is not confined to one arm of the select (it can run when the send to the caller was not the chosen case): an undelivered value is discarded")
 			continue
 		}
 		mixed := false
 		for _, ps := range pushes {
-			if k2, ok := armOf(ps.Block()); ok && k2 == k {
-				mixed = true
+			// a push inside a helper counts where the helper is called
+			sites := []*ssa.BasicBlock{ps.Block()}
+			for up := 0; up < 2 && len(armOf(sites[0])) == 0 && sites[0].Parent() != rm.Parent(); up++ {
+				callers := c.P.syncCallers(sites[0].Parent())
+				if len(callers) == 0 {
+					break
+				}
+				sites = sites[:0]
+				for _, cs := range callers {
+					sites = append(sites, cs.Block())
+				}
+			}
+			for _, b := range sites {
+				if compatible(arm, armOf(b)) {
+					mixed = true
+				}
 			}
 		}
-		c.check(!mixed, rule, construct, c.ipos(rm), fmt.Sprintf("removes the offered element in arm %d, where nothing is pushed", k),
+		c.check(!mixed, rule, construct, c.ipos(rm), "removes the offered element in an arm of the select where nothing is pushed",
 			"the removal lies in the intake arm of the select, not in the arm where the send to the caller was chosen: an undelivered value is discarded")
 	}
 }
@@ -538,5 +576,46 @@ func (c *Ctx) deleteThenClose(rule string) {
 	}
 	if n == 0 {
 		c.bad(rule, "close of a sink", "-", "no place closes sinks any more")
+	}
+}
+
+// tablesEmptiedBeforeRedial: R08.14. For every map-typed field of the connection struct that some
+// non-construction code inserts into, the redial function's cone contains a delete on it, a clear, or a
+// store of a fresh map. A set of "already closed" channel ids that only grows swallows the values and
+// the close of a later subscription that is given the same id by the new connection.
+func (c *Ctx) tablesEmptiedBeforeRedial(rule string) {
+	p, r := c.P, c.R
+	st := structOf(r.TConn)
+	if st == nil || r.FnRedial == nil {
+		c.und(rule, "connection struct / redial function", "-", "not resolved")
+		return
+	}
+	n := 0
+	for i := 0; i < st.NumFields(); i++ {
+		f := st.Field(i)
+		if _, isMap := f.Type().Underlying().(*types.Map); !isMap {
+			continue
+		}
+		if len(usesOfKind(p.uses(f), "mapupdate")) == 0 {
+			continue
+		}
+		n++
+		construct := fmt.Sprintf("connection table %s: emptied before a redial", f.Name())
+		emptied := false
+		for _, u := range p.uses(f) {
+			switch u.Kind {
+			case "delete", "store", "clear":
+				if u.Kind == "store" && c.isConstruction(u) {
+					continue // made once when the connection object is set up
+				}
+				if p.inCone(r.FnRedial, u.At) || (r.FnLoop != nil && p.inCone(r.FnLoop, u.At)) {
+					emptied = true
+				}
+			}
+		}
+		c.check(emptied, rule, construct, p.pos(f.Pos()), "delete / fresh map in the redial function's cone", "a per-connection table that is filled while the connection runs is never emptied when the client redials: entries keyed by ids of the old connection (channel ids, request ids) meet the same ids handed out again by the new one — frames for a new subscription are taken for leftovers of an old one and dropped, and its channel is never closed")
+	}
+	if n == 0 {
+		c.und(rule, "connection tables", "-", "no map field of the connection is inserted into")
 	}
 }
